@@ -291,3 +291,55 @@ func HistoryBoundary() {
 		runtime.GC()
 	}
 }
+
+// unknown-storm: nothing but refusals - every history is one decode of a frame (or of a message with an
+// extension) whose key is unregistered, a different key every time, with body bytes behind it. Run by many
+// goroutines at once it makes the error paths of the look-up functions meet each other.
+func driveUnknownStorm(c *DriverCtx) error {
+	r := c.G.R
+	c.G.Small = true
+	var batch []Op
+	for _, tn := range TableNames() {
+		tab := S.Tables[tn]
+		if c.TypeFilter != nil && !c.TypeFilter[tab.Owner] {
+			continue
+		}
+		// (all refusals of one table one after the other: the goroutines then meet in the same look-up function)
+		for k := 0; k < 120*c.N; k++ {
+			e := tab.Entries[r.Intn(len(tab.Entries))]
+			v := c.G.Value(tab.Owner, Canon)
+			var key []int
+			if tab.KeyKind == "int" {
+				key = unknownKeyFor(tab, r)
+			} else {
+				key = []int{'A' + r.Intn(26), '0' + r.Intn(10), 'a' + r.Intn(26)}
+			}
+			v[tab.KeyField] = key
+			v[BodyField(tab.Owner).Name] = c.G.Value(e.Type, Canon)
+			m := NewMachine()
+			if _, err := m.Exec(Op{Op: "new", O: "m", V: v}); err != nil {
+				return err
+			}
+			ev, err := m.Exec(Op{Op: "encode", B: "b", O: "m"})
+			if err != nil {
+				return err
+			}
+			if ev.Res != "ok" {
+				continue
+			}
+			batch = append(batch, Op{Op: "load", B: "b", Bytes: ev.Post}, Op{Op: "decode", B: "b", O: "r", T: tab.Owner, Fresh: true, Tag: "unregistered"})
+			if len(batch) >= 8 {
+				if err := c.Run(batch); err != nil {
+					return err
+				}
+				batch = nil
+			}
+		}
+	}
+	if len(batch) > 0 {
+		return c.Run(batch)
+	}
+	return nil
+}
+
+func init() { Drivers["unknown-storm"] = driveUnknownStorm }
